@@ -172,20 +172,53 @@ def model_check(cx, module, cfg=None, consts=None, workers=1, timeout=1800, expe
     return outp
 
 
+def _send_key(step):
+    m = step.get("m", {}) if isinstance(step, dict) else {}
+    if not isinstance(m, dict):
+        return "?"
+    q = m.get("q") if isinstance(m.get("q"), dict) else {}
+    return "%s/%s/%s/%s/%s/%s" % (m.get("t"), m.get("kind", ""), m.get("name", ""), m.get("portal", ""), m.get("stmt", ""),
+                                 q.get("id", ""))
+
+
 def subsample(cx, path, n):
-    """Keep a seeded random subset of n behaviours (quick tier: the model is checked exhaustively, the
-    replay through the implementation is sampled)."""
+    """Keep a seeded subset of n behaviours (quick tier: the model is checked exhaustively, the replay through
+    the implementation is sampled). The sample is stratified by the last three client messages of a behaviour
+    (type and names): TLC exports one behaviour per transition of the state graph, so a particular short
+    history (Bind, Close, Execute of the same name) exists exactly once and must not be left to chance."""
     import random
     ls = read_lines(path)
     if n is None or len(ls) <= n:
         return path
     rnd = random.Random(cx.seed)
-    keep = sorted(rnd.sample(range(len(ls)), n))
+    groups = {}
+    for i, l in enumerate(ls):
+        try:
+            steps = json.loads(l).get("steps", [])
+            key = "|".join(_send_key(s) for s in steps[-3:])
+        except Exception:
+            key = "?"
+        groups.setdefault(key, []).append(i)
+    order = sorted(groups)
+    rnd.shuffle(order)
+    for k in order:
+        rnd.shuffle(groups[k])
+    keep = []
+    while len(keep) < n:
+        progressed = False
+        for k in order:
+            if groups[k] and len(keep) < n:
+                keep.append(groups[k].pop())
+                progressed = True
+        if not progressed:
+            break
+    keep.sort()
     with open(path, "w") as f:
         for i in keep:
             f.write(ls[i] + "\n")
-    cx.cov.setdefault("replay_sampling", []).append({"file": os.path.basename(path), "exported": len(ls), "replayed": n})
-    log("[mc] replaying a seeded sample of %d of %d exported behaviours" % (n, len(ls)))
+    cx.cov.setdefault("replay_sampling", []).append({"file": os.path.basename(path), "exported": len(ls), "replayed": len(keep),
+                                                    "strata": len(order)})
+    log("[mc] replaying a stratified seeded sample of %d of %d exported behaviours (%d strata)" % (len(keep), len(ls), len(order)))
     return path
 
 
